@@ -32,6 +32,9 @@ Json gen(sim::Rng& rng, int tier)
         // "async-gone": the client leaves before the application thread replies; the reply is queued for the loop thread and
         // dropped there (the peer is gone) - whatever is queued behind it still has to be written
         c["kind"] = k < 5 ? "tmoasync" : k < 7 ? "async" : k < 9 ? "async-gone" : "size";
+        // the application thread arms the response time-out and replies at once: the timer is disarmed before the worker may
+        // have taken the arming request from its queue
+        if (k < 5 && rng.chance(0.35)) c["kind"] = "tmoreplyasync";
         c["ms"] = static_cast<int>(20 + rng.below(400));
         c["size"] = static_cast<int>(rng.below(3000));
         c["tag"] = static_cast<long long>(tag += 10);
@@ -156,7 +159,10 @@ void run(const Json& plan)
         wt.ms = std::max<i64>(1, std::min<i64>(c.num("ms", 100), 5000));
         size_t size = static_cast<size_t>(std::max<i64>(0, std::min<i64>(c.num("size", 100), 20000)));
         if (wt.kind == "tmoasync") wt.target = "/tmoasync/" + std::to_string(wt.ms) + "/" + std::to_string(tag);
-        else if (wt.kind == "park") {
+        else if (wt.kind == "tmoreplyasync") {
+            wt.target = "/tmoreplyasync/" + std::to_string(wt.ms) + "/" + std::to_string(size) + "/" + std::to_string(tag);
+            wt.body = actors::pattern(tag, size);
+        } else if (wt.kind == "park") {
             wt.target = "/tmo/" + std::to_string(wt.ms) + "/" + std::to_string(tag);
             wt.body = "notified";
         } else if (wt.kind == "notify") {
